@@ -172,7 +172,7 @@ def run(ctx, proof):
     ctx.count("table-cases", len(table))
     for i in range(0, len(table), 128):
         run_batch(ctx, table[i:i + 128], True)
-    rnd = random_cases(ctx.rng, 1500 if ctx.thorough() else 60)
+    rnd = random_cases(ctx.rng, 600 if ctx.thorough() else 60)
     for i in range(0, len(rnd), 128):
         run_batch(ctx, rnd[i:i + 128], False)
     ctx.extra["exhaustive"] = True
